@@ -911,6 +911,9 @@ func unop(fr *frame, instr *ssa.UnOp, x value) value {
 			return -x
 		}
 	case token.MUL:
+		if sr, isRef := x.(*symref); isRef {
+			return sr.load(fr)
+		}
 		p, ok := x.(*value)
 		if !ok {
 			panic(engineErr{fmt.Sprintf("load through %T", x)})
@@ -1208,7 +1211,7 @@ func rangeIter(fr *frame, x value) iter {
 	case symstr:
 		return &stringIter{b: []value(x)}
 	}
-	panic(engineErr{fmt.Sprintf("cannot range over %T", x)})
+	panic(engineErr{fmt.Sprintf("UNSUPPORTED range over %T %s in %s", x, toString(x), stackOf(fr))})
 }
 
 // widen widens a basic typed value x to the widest type of its
